@@ -1113,9 +1113,9 @@ def sad_facts(src, csrc, xsrc):
         ('ikesa.py', 'IkeSa._process_create_child_sa_negotiation_req',
          'xfrm.Xfrm.create_child_sa(self, child_sa, child_sa_keyring, is_initiator=False)'),
         ('ikesa.py', 'IkeSa._process_create_child_sa_negotiation_req', 'self.child_sas.append(child_sa)'),
-        ('ikesa.py', 'IkeSa._process_create_child_sa_negotiation_res', 'self.child_sas.append(self.creating_child_sa)'),
         ('ikesa.py', 'IkeSa._process_create_child_sa_negotiation_res',
          'xfrm.Xfrm.create_child_sa(self, self.creating_child_sa, child_sa_keyring, is_initiator=True)'),
+        ('ikesa.py', 'IkeSa._process_create_child_sa_negotiation_res', 'self.child_sas.append(self.creating_child_sa)'),
         ('ikesa.py', 'IkeSa.process_informational_request', 'xfrm.Xfrm.delete_child_sa(self, child_sa)'),
         ('ikesa.py', 'IkeSa.process_informational_request', 'self.child_sas.remove(child_sa)'),
         ('ikesa.py', 'IkeSa.process_create_child_sa_request', 'self.new_ike_sa.child_sas = self.child_sas'),
